@@ -22,8 +22,8 @@ TOpen == /\ IsEvent("LOpen")
          /\ LET want == IF Compatible(held, E.a, E.mode) THEN "ok" ELSE "ErrTimeout" IN
             /\ Expect(E.res = want, <<"open outcome; Lock.tla says", want, held>>)
             \* latency: a compatible open returns promptly, a conflicting one after about its timeout (generous bounds)
-            /\ Expect(E.res # "ok" \/ E.ms <= 2000, "compatible open took more than 2 s")
-            /\ Expect(E.res # "ErrTimeout" \/ (E.ms >= E.timeoutMs - 120 /\ E.ms <= E.timeoutMs + 3000), "timeout reported far from the requested timeout")
+            /\ Expect(E.res # "ok" \/ E.ms <= 10000, "compatible open took more than 10 s")
+            /\ Expect(E.res # "ErrTimeout" \/ (E.ms >= E.timeoutMs - 120 /\ E.ms <= E.timeoutMs + 10000), "timeout reported far from the requested timeout")
             /\ held' = IF E.res = "ok" THEN [held EXCEPT ![E.a] = E.mode] ELSE held
 TClose == /\ IsEvent("LClose")
           /\ Expect(held[E.a] # "none" /\ E.res = "ok", "close failed")
